@@ -562,6 +562,14 @@ def extract(meta, harness_path, workdir, native=False):
     sliced, fired['R-rmwx'] = rule_rmw_extra(sliced, meta.get('rmw_extra', {}))
     sliced, fired['R-cut'] = rule_cut_goto(sliced, meta.get('cut_goto', {}))
     sliced, fired['R-rec'] = rule_cut_recursion(sliced, meta.get('cut_recursion', []))
+    # R-rewrite: exact, must-fire-once textual rewrites listed by the harness (only for argument conversions between two
+    # transparent unions, which clang accepts and CBMC's front end rejects); each pair is reported with the harness
+    nrw = 0
+    for old, new in meta.get('rewrite', []):
+        if sliced.count(old) != 1:
+            raise ExtractionError('R-rewrite: %r occurs %d times (must be exactly once)' % (old, sliced.count(old)))
+        sliced = sliced.replace(old, new); nrw += 1
+    fired['R-rewrite'] = nrw
     sliced, fired['R-trap'] = rule_trap(sliced)
     sliced, fired['R-ovl'] = rule_ovl(sliced)
     sliced, fired['R-apply'] = rule_apply(sliced)
